@@ -2,7 +2,7 @@
     Only ExtrOcamlBasic is used: Z, positive, nat stay the extracted inductives. *)
 Require Extraction.
 Require Import ExtrOcamlBasic.
-From IsoTp Require Import Model.Layer.
+From IsoTp Require Import Model.Layer Spec.Segment.
 
 Extraction Language OCaml.
 Separate Extraction
@@ -12,4 +12,5 @@ Separate Extraction
   Layer.timer_remaining Layer.timer_timed_out
   Address.addr_validate Address.is_for_me Address.tx_arb_id Address.rx_arb_id
   Address.tx_prefix Address.rx_prefix_size Address.tx_ext_byte Address.rx_ext_byte
-  Pdu.pdu_decode Frames.make_tx_msg Frames.make_flow_control.
+  Pdu.pdu_decode Frames.make_tx_msg Frames.make_flow_control
+  Segment.seg Segment.spec_frame.
